@@ -142,6 +142,11 @@ def h_TRzRy(a, b, x, y, z):
     return h_T(h_RzRy(a, b), (x, y, z))
 
 
+def h_TmdI(a, b, d):
+    T = h_TRzRy(a, b, 1.0, 2.0, 3.0)
+    return mat([[T[i][j] - (d if i == j else 0) for j in range(4)] for i in range(4)])
+
+
 def h_skew3(x, y, z):
     return mat([[0, -z, y], [z, 0, -x], [-y, x, 0]])
 
@@ -443,6 +448,13 @@ def catalogue(tier, seed):
     add('SE3.Eul', 'rows2:lists', rows, lambda v: (lambda: sm.SE3.Eul([list(v[:3]), list(v[3:])])), subsets=rows_sub)
     add('SE3.RPY', 'rows2:array', rows, lambda v: (lambda: sm.SE3.RPY(np.array([list(v[:3]), list(v[3:])]))), subsets=rows_sub)
     add('SE3.RPY', 'rows2:lists', rows, lambda v: (lambda: sm.SE3.RPY([list(v[:3]), list(v[3:])])), subsets=rows_sub)
+    # the same tables in degrees (the unit has to reach every row, symbolic or not)
+    rows_deg = [Group('r0', 'ang', 3, [(n, tuple(math.degrees(x) for x in v)) for n, v in A.ang3rows]),
+                Group('r1', 'ang', 3, [(n, tuple(math.degrees(x) for x in v)) for n, v in A.ang3rows])]
+    add('SE3.Eul', 'rows2:array:deg', rows_deg, lambda v: (lambda: sm.SE3.Eul(np.array([list(v[:3]), list(v[3:])]), unit='deg')), subsets=rows_sub)
+    add('SE3.Eul', 'rows2:lists:deg', rows_deg, lambda v: (lambda: sm.SE3.Eul([list(v[:3]), list(v[3:])], unit='deg')), subsets=rows_sub)
+    add('SE3.RPY', 'rows2:array:deg', rows_deg, lambda v: (lambda: sm.SE3.RPY(np.array([list(v[:3]), list(v[3:])]), unit='deg')), subsets=rows_sub)
+    add('SE3.RPY', 'rows2:lists:deg', rows_deg, lambda v: (lambda: sm.SE3.RPY([list(v[:3]), list(v[3:])], unit='deg')), subsets=rows_sub)
 
     # ---- delta2tr / SE3.Delta / skewa(6) / vexa
     d6 = lambda: [A.vec3('d', short=True), A.vec3('w', short=True)]
@@ -498,6 +510,14 @@ def catalogue(tier, seed):
     add('base.det', 'T3', T2(), lambda v: (lambda: base.det(h_T2(*v))))
     add('base.det', 'M2', [A.len('a', True), A.len('b', True), A.len('c', True), A.len('d', True)],
         lambda v: (lambda: base.det(mat([[v[0], v[1]], [v[2], v[3]]]))), scale=lenscale(2))
+    # 4 x 4 and 5 x 5 matrices of plain symbols (no closed form inside SymPy for these sizes): elimination-style determinants divide by pivots
+    # that vanish at ordinary substitution points (a symbol equal to 0, two symbols equal)
+    add('base.det', 'B4', [A.len('a', True), A.len('b', True), A.len('c', True)],
+        lambda v: (lambda: base.det(mat([[v[0], v[1], 0, 0], [v[1], v[0], v[2], 0], [0, v[2], v[0], v[1]], [0, 0, v[1], v[0]]]))), scale=lenscale(4))
+    add('base.det', 'M4', [A.len('a', True), A.len('b', True), A.len('c', True), A.len('d', True)],
+        lambda v: (lambda: base.det(mat([[v[0], v[1], v[2], 1], [v[1], v[3], 1, v[2]], [v[2], 2, v[0], v[1]], [1, v[3], v[1], v[0]]]))), scale=lenscale(4))
+    add('base.det', 'T4-dI', [A.ang('a', 'a3'), A.ang('b', 'a3'), A.len('d', True)],
+        lambda v: (lambda: base.det(h_TmdI(*v))), scale=lenscale(4))
     add('base.det', 'S3+I', [A.vec3('v', short=True), A.len('d')],
         lambda v: (lambda: base.det(mat([[v[3], -v[2], v[1]], [v[2], v[3], -v[0]], [-v[1], v[0], v[3]]]))), scale=lenscale(3))
 
@@ -748,9 +768,12 @@ def evaluate(e, mapping, slow=False):
         return float(e), None
     if not isinstance(e, sympy.Basic):
         return None, 'entry of type %s' % type(e).__name__
-    if slow:
-        return _as_float(sympy.N(e.subs(mapping), 30))
-    return _as_float(sympy.N(e, 30, subs=mapping))
+    try:
+        if slow:
+            return _as_float(sympy.N(e.subs(mapping), 30))
+        return _as_float(sympy.N(e, 30, subs=mapping))
+    except ZeroDivisionError:
+        return None, 'division by zero when the numbers are substituted'
 
 
 def default_scale(vals, kinds, num):
